@@ -161,10 +161,42 @@ def _noaddr(outcome):
     return tuple(_ADDR.sub("0x", x) if isinstance(x, str) else x for x in outcome)
 
 
-def run_history(history, stop_at_first=False):
+def alone(arg):
+    """What a new instance gives for the input of *call* alone - evaluated (through
+    vlib.zygote) in a process that has done nothing else with the library."""
+    call, reg = arg
+    kind = call[0]
+    if kind in ("parse", "vparse"):
+        p = make_parser(call[1], lexer_fn=counting_lexer()) if kind == "parse" \
+            else VALIDATE_FRESH[call[1]]()[0]
+        if kind == "vparse":
+            p.lexer = counting_lexer()
+        return _noaddr(outcome_parse(p, call[2]))
+    if kind == "decode":
+        return _noaddr(outcome_decode(grammar_decoder(call[1])[1], call[2]))
+    if kind == "vencode":
+        return _noaddr(outcome_encode(VALIDATE_FRESH[call[1]]()[1], call[2]))
+    if kind == "tencode":
+        return _noaddr(outcome_encode(TRANSLATE_FRESH[call[1]](), call[2]))
+    fresh = make_encoder(call[1])
+    if reg:
+        fresh.add_quantity_cls(c13.Metres, "value", "units")
+    if kind == "encode":
+        return _noaddr(outcome_encode(fresh, call[2]))
+    if kind == "encode-shared":
+        return _noaddr(outcome_encode(fresh, call[2], build_shared(call[2])))
+    if kind == "encode-q":
+        m1 = gv.build_module(call[2])
+        m1.append("QUANTITY_LIKE", c13.Metres(2.5, "km"))
+        return _noaddr(outcome_encode(fresh, call[2], m1))
+    raise AssertionError(call)
+
+
+def run_history(history, stop_at_first=False, zyg=None):
     """None or (signature, detail).  Every history starts from new long-lived
     instances (and freshly imported CLI modules), so that a history is a complete,
-    replayable reproduction."""
+    replayable reproduction.  With *zyg* the result of the new instance comes from a
+    process that has done nothing else (see alone())."""
     _LONG.clear()
     _SHARED.clear()
     importlib.reload(pv)
@@ -237,6 +269,9 @@ def run_history(history, stop_at_first=False):
         else:
             raise AssertionError(call)
         a, b = _noaddr(a), _noaddr(b)
+        if zyg is not None:
+            b = zyg.run((tuple(call), call[1] in registered))
+            who += " (new process)"
         if a != b:
             what = "result"
             if a[0] == "module" and b[0] == "module" and a[1] == b[1]:
@@ -365,6 +400,48 @@ def random_histories(acc, n, seed):
             acc.fail(r[0], dict(history=[list(c) for c in history]), r[1])
 
     body()
+
+
+def pristine_histories(acc, n, seed):
+    """The histories of random_histories(), but "what a fresh instance gives for that
+    text alone" is worked out in a process that has done nothing else: state that the
+    library keeps on a class or a module is state between calls, too, and a fresh
+    instance in a worker that has made thousands of calls cannot show it."""
+    from vlib.zygote import Zygote
+    with Zygote("props.c16:alone") as z:
+        def one(history):
+            r = run_history(history, zyg=z)
+            acc.case(key="pristine" + repr(history), nontrivial=True)
+            acc.event("pristine-calls", len(history))
+            if r is not None:
+                acc.fail(r[0].replace("C16/", "C16/new-process/", 1),
+                         dict(history=[list(c) for c in history], pristine=True), r[1])
+
+        for e in ENCODERS:
+            # the other dialects write first, then the one under test
+            for spec in c13.WRAPPED:
+                for other in ENCODERS:
+                    if other != e:
+                        one([("encode", other, c13.WRAPPED[0]), ("encode", e, spec)])
+        for v in list(PARSERS):
+            for t1 in FIXED_TEXTS[:12]:
+                for t2 in FIXED_TEXTS[:6]:
+                    if acc.expired():
+                        acc.notes["budget_exhausted"] = 1
+                        return
+                    one([("parse", v, t1), ("parse", v, t2)])
+
+        @hseed(seed)
+        @settings(max_examples=n, database=None, deadline=None,
+                  phases=[Phase.generate], suppress_health_check=list(HealthCheck))
+        @given(st.one_of(st.lists(calls(), min_size=2, max_size=8), related_encodes()))
+        def body(history):
+            if acc.expired():
+                acc.notes["budget_exhausted"] = 1
+                return
+            one(history)
+
+        body()
 
 
 def fixed_histories(acc, part=None):
@@ -500,6 +577,8 @@ def shards(tier, seed):
     out = [("fixed_histories", dict(part=p))
            for p in list(PARSERS) + ["v-" + dn for dn in VALIDATE_FRESH]] + out
     out += [("fixed_encodes", dict(enc=e)) for e in ENCODERS]
+    out += [("pristine_histories", dict(n=40 if tier == "quick" else 800,
+                                        seed=seed * 1000 + 700 + j)) for j in range(4)]
     out += [("soak", dict(who=w, n=400 if tier == "quick" else 5000))
             for w in list(PARSERS) + list(ENCODERS)]
     if tier == "thorough":
@@ -512,9 +591,15 @@ def replay(case):
     hist = []
     for c in case["history"]:
         hist.append((c[0], c[1], c[2]))
+    if case.get("pristine"):
+        from vlib.zygote import Zygote
+        with Zygote("props.c16:alone") as z:
+            r = run_history(hist, zyg=z)
+        return None if r is None else (r[0].replace("C16/", "C16/new-process/", 1), r[1])
     return run_history(hist)
 
 
 def shrink(case, still_fails):
-    kept = shrink_seq(case["history"], lambda h: still_fails(dict(history=h)))
-    return dict(history=kept)
+    extra = {k: v for k, v in case.items() if k != "history"}
+    kept = shrink_seq(case["history"], lambda h: still_fails(dict(extra, history=h)))
+    return dict(extra, history=kept)
